@@ -32,7 +32,7 @@ def digits(v, w):
 
 def mk(pid, kinds, strict, source='string', perm=None, widths=None, T=60, sym_ids=False, sort_objects=False, tag='',
        mids=None, may_fail=True, rc_mid=None, sym_rc=None, rc_completed=False, merge_twice=False, ncs_ids=None,
-       same_basename=False, idlen=1, refs=None):
+       same_basename=False, idlen=1, refs=None, readback=False):
     """sym_ids: message IDs are symbolic digit strings of the given widths (used where no message fails:
     a failing merge formats its message ID into the error text, which realises the integer and turns
     one path into one path per value); otherwise they are the concrete ``mids``."""
@@ -49,6 +49,7 @@ def mk(pid, kinds, strict, source='string', perm=None, widths=None, T=60, sym_id
     if rc_mid:
         P['rc_mid'] = rc_mid
     P['ncs_ids'] = ncs_ids
+    P['readback'] = readback
     if refs:
         P['refs'] = refs
     P['same_basename'] = same_basename
